@@ -130,6 +130,12 @@ func runHistory(r *core.Run, cid string, L int) {
 			return
 		}
 	}
+	// every history closes with one PacketSent log of each kind the contract would not emit, on a path that has seen traffic
+	for v := 1; v < 8; v++ {
+		a, b := s.RandNodePair()
+		m.hookProbeOn(a, b, v)
+	}
+	m.checkAll("closing hook probes")
 	r.Sample(map[string]interface{}{"history": cid, "ops": len(s.Log), "next": m.next})
 }
 
@@ -512,7 +518,7 @@ func (m *mon) hookProbeOn(src, dst *core.Node, force int) {
 	good := packettypes.Packet{SrcChain: src.Name, DstChain: dst.Name, Sequence: m.nextOf(key(src, dst.Name)), Sender: pkt.LowerHex(s.RandUser().Eth), TransferData: []byte{}, CallData: []byte{1}, CallbackAddress: "", FeeOption: 0}
 	p := good
 	variant := ""
-	pickV := s.Rng.Intn(6)
+	pickV := s.Rng.Intn(8)
 	if force >= 0 {
 		pickV = force
 	}
@@ -535,6 +541,12 @@ func (m *mon) hookProbeOn(src, dst *core.Node, force int) {
 	case 5:
 		p.CallData = []byte{}
 		variant = "no-data"
+	case 6, 7:
+		// no transfer and no call, but shaped like everything the endpoint emits: a callback string is always there (the
+		// zero address when the caller wants none)
+		p.CallData = []byte{}
+		p.CallbackAddress = []string{"0x0000000000000000000000000000000000000000", pkt.LowerHex(s.RandUser().Eth)}[pickV-6]
+		variant = "no-data-but-a-callback-address"
 	}
 	bz, err := p.ABIPack()
 	if err != nil {
